@@ -337,7 +337,10 @@ def handle : Handler := fun m j =>
     -- the scope walker on the source heap (C13_clone_succeeds / C13_clone_raises_iff)
     let w0 ← (← getArr j "world").mapM asCell
     let fuel := (j.getObjValAs? Nat "fuel").toOption.getD 64
-    match cloneVerdict fuel (← getBool j "allow") w0 (← getNat j "g") with
+    let verdict ← match j.getObjValAs? Nat "f" with
+      | .ok f => pure (funcVerdict fuel w0 f)
+      | .error _ => do pure (cloneVerdict fuel (← getBool j "allow") w0 (← getNat j "g"))
+    match verdict with
     | .ok A => return obj [("v", "ok"), ("bound", natsJ A.bound.reverse)]
     | .err (.raised why) => return obj [("v", "raised"), ("why", why)]
     | .err (.unsupported why) => return obj [("v", "unsupported"), ("why", why)]
